@@ -14,7 +14,7 @@ from ..engine import Space
 PROPERTY = "C19"
 LEVEL = "model_checking"
 VARIANTS = ["fast", "tsan"]
-RULE = ("sequential: 10 initial configurations x all action sequences of length <=3 (quick) / <=5 (thorough) over 6 actions; states = distinct "
+RULE = ("sequential: 10 initial configurations x all action sequences of length <=4 (quick) / <=5 (thorough) over 6 actions; states = distinct "
         "(runtime state, frame depths/positions) reached, transitions = actions; concurrent: executor start on 3 script kinds x all controller "
         "sequences of <=2 actions over 5 actions, all schedules with <=2 (quick) / <=3 (thorough) preemptions at the hook points; "
         "states = scheduling points visited, transitions = executions (complete schedules)")
@@ -296,6 +296,6 @@ def parse_tsan(err):
 
 def spaces(tier):
     q = tier == "quick"
-    return [Space("sequential", gen_seq(3 if q else 5), check_seq, variant="fast", describe="initial configurations x action sequences"),
+    return [Space("sequential", gen_seq(4 if q else 5), check_seq, variant="fast", describe="initial configurations x action sequences"),
             Space("concurrent", gen_conc(1 if q else 2), check_conc if q else check_conc3, variant="fast", describe="executor vs controller, preemption-bounded exploration"),
             Space("tsan-free-running", gen_tsan, check_tsan, variant="tsan", describe="same bodies free-running under ThreadSanitizer")]
